@@ -68,7 +68,7 @@ class BaseNode(Node):
     def cast_value(self, value=None):
         """ Cast (raw-)value as a datatype self, or another node
         """
-        if not value:
+        if value is None:
             if self.value is None:
                 value = self.value_raw
             else:
@@ -130,13 +130,18 @@ class BaseNode(Node):
     def set_value(self, value=None):
         """ Set value using value_raw or arbitrary value
         """
-        if value is None and self.value_raw:
+        if value is None and not self.raw_empty():
             self.value = self.cast_value()
-        elif value:
+        elif value is not None:
             self.value = value
         else:
             self.value = None
     
+    def raw_empty(self):
+        """ Raw value is missing (declaration, unresolved reference)
+        """
+        return self.value_raw is None or (isinstance(self.value_raw, str) and self.value_raw=='' and self.keyword!='str')
+
     def modify_value(self, node, env):
         """ Modify value taking value of a different node
         """
@@ -150,7 +155,11 @@ class BaseNode(Node):
         if isinstance(value, (IntegerType, FloatType)):
             value.unit = node.units_raw
             value.convert(self.units_raw, env)
-        self.set_value(value.value)
+        if value.value is None:
+            value.unit = self.units_raw if isinstance(value, NumberType) else None
+            self.value = value
+        else:
+            self.set_value(value.value)
 
     def slice_value(self, slices, value=None):
         """ Slice part of the value
